@@ -204,6 +204,13 @@ def run(ctx):
             scs.append(({"op": "ckd", "root": r, "i": i}, False))
             if i < H:
                 scs.append(({"op": "ckd", "root": dict(r, pub=True), "i": i}, False))
+    # parents PARSED from their serialised form (they may hold their key in another width), private and public, normal and hardened
+    for r in rts[:2]:
+        pr = dict(r, parsed=True, depth=2, index=H + 3, pfp="0a0b0c0d")
+        for i in (0, H, H + 1, 2**32 - 1):
+            scs.append(({"op": "ckd", "root": pr, "i": i}, False))
+        scs.append(({"op": "ckd", "root": dict(pr, pub=True), "i": 1}, False))
+        scs.append(({"op": "derive", "root": pr, "path": [H + 1, H + 2]}, True))
     # limb-boundary answers on two parents, private and public, normal and hardened
     limb = []
     for r in rts[:2]:
@@ -215,6 +222,11 @@ def run(ctx):
         for warm in (1, 4, 15, 16, 17, 32, 33):
             scs.append(({"op": "ckd", "root": r, "i": 0, "warm": warm}, False))
             scs.append(({"op": "ckd", "root": dict(r, pub=True), "i": 0, "warm": warm}, False))
+    # the same request twice (and three times) on the same parent object: a refusal must not be forgotten
+    for r in rts[:2]:
+        for i, rep in ((0, 2), (H + 1, 2), (1, 3)):
+            scs.append(({"op": "ckd", "root": r, "i": i, "repeat": rep}, False))
+        scs.append(({"op": "ckd", "root": dict(r, pub=True), "i": 1, "repeat": 2}, False))
     hist_roots = rts[:4 if ctx.thorough else 2]
     for r in hist_roots:
         d2 = True
